@@ -26,7 +26,6 @@ import (
 	"io/ioutil"
 	"net/url"
 	"strings"
-	"sync/atomic"
 
 	"github.com/golang/snappy"
 	"github.com/google/martian/v3/h2"
@@ -78,13 +77,11 @@ func AsStreamProcessorFactory(f ProcessorFactory) h2.StreamProcessorFactory {
 		sToCEmitter := &emitter{sink: sinks.ForDirection(h2.ServerToClient)}
 		cToSProcessor, sToCProcessor := f(url, cToSEmitter, sToCEmitter)
 
-		// enabled indicates whether the stream should be processed as gRPC. It is shared between the
-		// the two adapters because its detection is on a client-to-server HEADER frame and the state
-		// applies bidirectionally.
-		enabled := int32(0)
+		// Whether a direction of the stream is processed as gRPC is decided by the content type of
+		// that direction's own first HEADERS frame: a gRPC request may be answered with a plain
+		// HTTP response (by an intermediary, say), whose body is not a sequence of gRPC messages.
 		if cToSProcessor != nil {
 			cToSEmitter.adapter = &adapter{
-				enabled:   &enabled,
 				dir:       h2.ClientToServer,
 				processor: cToSProcessor,
 				sink:      sinks.ForDirection(h2.ClientToServer),
@@ -93,7 +90,6 @@ func AsStreamProcessorFactory(f ProcessorFactory) h2.StreamProcessorFactory {
 		}
 		if sToCProcessor != nil {
 			sToCEmitter.adapter = &adapter{
-				enabled:   &enabled,
 				dir:       h2.ServerToClient,
 				processor: sToCProcessor,
 				sink:      sinks.ForDirection(h2.ServerToClient),
@@ -122,7 +118,9 @@ const (
 // adapter wraps the Processor interface with an h2.Processor interface. It filters streams that
 // are not gRPC and handles decompressing the message data.
 type adapter struct {
-	enabled *int32
+	// enabled indicates whether this direction of the stream is processed as gRPC; decided
+	// says that the first HEADERS frame of the direction has been seen.
+	enabled, decided bool
 
 	dir h2.Direction
 
@@ -147,16 +145,22 @@ func (a *adapter) Header(
 	streamEnded bool,
 	priority http2.PriorityParam,
 ) error {
-	if !a.isEnabled() {
+	if !a.decided {
+		a.decided = true
 		for _, h := range headers {
+			if h.Name == ":status" && strings.HasPrefix(h.Value, "1") {
+				// An interim response: the final response's HEADERS frame decides.
+				a.decided = false
+				break
+			}
 			if h.Name == "content-type" && isGRPCContentType(h.Value) {
-				atomic.StoreInt32(a.enabled, 1)
+				a.enabled = true
 				break
 			}
 		}
-		if !a.isEnabled() {
-			return a.sink.Header(headers, streamEnded, priority)
-		}
+	}
+	if !a.isEnabled() {
+		return a.sink.Header(headers, streamEnded, priority)
 	}
 
 	for _, h := range headers {
@@ -273,7 +277,7 @@ func (a *adapter) PushPromise(promiseID uint32, headers []hpack.HeaderField) err
 }
 
 func (a *adapter) isEnabled() bool {
-	return atomic.LoadInt32(a.enabled) > 0
+	return a.enabled
 }
 
 // isGRPCContentType reports whether v is "application/grpc", optionally followed by a subtype
